@@ -6,11 +6,15 @@ package main
 import (
 	"bufio"
 	"bytes"
+	"encoding/json"
 	"errors"
 	"fmt"
 	"io"
 	"io/fs"
+	"os"
+	"path/filepath"
 	"strings"
+	"time"
 
 	agetest "c2sp.org/CCTV/age"
 	"filippo.io/age"
@@ -411,6 +415,105 @@ func main() {
 			}
 		}
 		c.Sample(map[string]interface{}{"identity": "X25519Identity", "stanza": "X25519 [<all-zero point>] with 32-byte body"})
+
+		// ------------------------------------------------ plugin protocol output through the real client loops
+		if sim := os.Getenv("VERIF_PLUGINSIM"); sim != "" {
+			c.Part("plugin-conversations")
+			dir, err := os.MkdirTemp("", "verif-c14-")
+			if err != nil {
+				panic(err)
+			}
+			defer os.RemoveAll(dir)
+			os.MkdirAll(filepath.Join(dir, "path"), 0o755)
+			os.Symlink(sim, filepath.Join(dir, "path", "age-plugin-sim"))
+			os.Setenv("PATH", filepath.Join(dir, "path"))
+			script := filepath.Join(dir, "script.json")
+			os.Setenv("VERIF_PLUGIN_SCRIPT", script)
+			os.Unsetenv("VERIF_PLUGIN_LOG")
+			os.Unsetenv("VERIF_PLUGIN_EXECLOG")
+			mk := func(t string, args []string, body []byte) string {
+				return string(refage.MarshalStanza(refage.Stanza{Type: t, Args: args, Body: body}))
+			}
+			pm := []string{
+				mk("recipient-stanza", []string{"0", "t"}, nil), mk("recipient-stanza", []string{"0"}, nil), mk("recipient-stanza", nil, nil), mk("recipient-stanza", []string{"9999999999999999999999", "t"}, nil),
+				mk("file-key", []string{"0"}, lab.Plain(16, 1)), mk("file-key", nil, nil), mk("file-key", []string{"-1"}, nil), mk("labels", nil, nil), mk("labels", []string{"a", "a"}, nil),
+				mk("error", nil, nil), mk("error", []string{"x"}, []byte("%s%d%!")), mk("msg", nil, nil), mk("request-secret", []string{"x", "y"}, []byte("p")), mk("request-public", nil, nil),
+				mk("confirm", nil, nil), mk("confirm", []string{"QQ"}, nil), mk("confirm", []string{"!", "QQ"}, nil), mk("confirm", []string{"QQ", "QQ", "QQ"}, nil), mk("confirm", []string{""}, nil)[:0] + "-> confirm \n\n",
+				mk("unknown", nil, lab.Plain(100, 2)), mk("done", nil, nil), "-> \n\n", "->\n", "\n", "-> done", "-> msg\n" + strings.Repeat("A", 65) + "\n", "-> msg\nQR\n", "\xff\xfe", "-> m\xc3\xa9 x\n\n",
+			}
+			c.Bound("every plugin output of <= 2 messages over %d message kinds (valid and malformed commands of both machines, empty and oversized arguments, format verbs in texts, framing garbage, invalid UTF-8) followed by end of stream, plus every one-byte edit of three messages, through the real Recipient.Wrap and Identity.Unwrap loops with all UI callbacks present", len(pm))
+			ui := &plugin.ClientUI{
+				DisplayMessage: func(n, m string) error { return nil },
+				RequestValue:   func(n, p string, s bool) (string, error) { return "v", nil },
+				Confirm:        func(n, p, y, no string) (bool, error) { return true, nil },
+			}
+			runConv := func(id, send string) {
+				if c.Replaying() && !c.Want(id) {
+					return
+				}
+				b, _ := json.Marshal(map[string]interface{}{"send": send})
+				os.WriteFile(script, b, 0o644)
+				for mi, machine := range []string{"recipient", "identity"} {
+					c.Eval(1)
+					done := make(chan string, 1)
+					go func() {
+						pan := guard(func() {
+							if machine == "recipient" {
+								r, err := plugin.NewRecipient(plugin.EncodeRecipient("sim", []byte("d")), ui)
+								if err != nil {
+									panic(err)
+								}
+								st, err := r.Wrap(make([]byte, 16))
+								if (st == nil) == (err == nil) {
+									panic("value-xor-error: Wrap")
+								}
+							} else {
+								i, err := plugin.NewIdentity(plugin.EncodeIdentity("sim", []byte("d")), ui)
+								if err != nil {
+									panic(err)
+								}
+								k, err := i.Unwrap([]*age.Stanza{{Type: "sim", Args: []string{"a"}, Body: []byte("b")}})
+								if k != nil && err != nil {
+									panic("value-xor-error: Unwrap")
+								}
+							}
+						})
+						done <- pan
+					}()
+					select {
+					case pan := <-done:
+						if pan != "" {
+							c.Fail("panic/plugin-client", fmt.Sprintf("%s.m%d", id, mi), machine+" client: "+pan, map[string]interface{}{"plugin_output": send, "plugin_output_hex": ev.Hex([]byte(send))})
+						}
+					case <-time.After(60 * time.Second):
+						c.Fail("hang/plugin-client", fmt.Sprintf("%s.m%d", id, mi), machine+" client did not return after the plugin closed its output", map[string]interface{}{"plugin_output": send})
+					}
+				}
+			}
+			for i, a := range pm {
+				if c.Mine() {
+					c.DistinctOnce(ev.HashStr("pc", a))
+					runConv(fmt.Sprintf("p%d", i), a)
+				}
+				for j, b := range pm {
+					if !c.Mine() {
+						continue
+					}
+					c.DistinctOnce(ev.HashStr("pc", a, b))
+					runConv(fmt.Sprintf("p%d.%d", i, j), a+b)
+				}
+			}
+			for mi, m := range []string{pm[0] + pm[20], pm[4] + pm[20], mk("confirm", []string{"QQ", "Qg"}, []byte("sure?")) + pm[20]} {
+				forEdits([]byte(m), func(int) bool { return true }, func(ei int, e []byte) {
+					if !c.Mine() {
+						return
+					}
+					c.DistinctOnce(ev.Hash64(e))
+					runConv(fmt.Sprintf("pe%d.%d", mi, ei), string(e))
+				})
+			}
+			c.Sample(map[string]interface{}{"plugin_output": pm[14] + pm[20], "machines": "recipient-v1 and identity-v1, all UI callbacks present"})
+		}
 
 		// ------------------------------------------------ strings, key files, stanza reader
 		c.Part("strings-and-streams")
